@@ -69,9 +69,11 @@ def check(run, replay):
         "toxml/rawattr: byte strings len 0-12 over letters, XML specials, control and high bytes, and entity-like fragments; non-trivial = contains a byte toxml rewrites / an '&' or CR/LF. "
         "ctu/uu: 0-3 function calls (0-2 path entries), 0-3 nested calls, 0-3 unsafe usages, ids from a pool of 5 (20% with an inserted special/entity), escaped fields hostile with p in {0,.15,.5}, "
         "integers small or at the int32/int64 edges; non-trivial = at least one element and model answer not U, distinct case. "
+        "ctucfgs: one source with 1-3 configurations, each 0-2 function calls and 0-2 nested calls; non-trivial = several configurations and something read back. "
         "wp: 1-4 function calls, 0-5 nested calls, 1-3 unsafe usages over 2-4 ids, depth in {0,1,2,3,4,6,10}, four checks, each case in-memory and stored; non-trivial = at least one finding, distinct case. "
         "projects: 3-7 functions (forwarders/deref/index/arith), 2-6 callers (null/uninit/array/ok), 0-2 unused functions, 2-4 sources, .c or .cpp (with 0-4 struct definitions), "
-        "--max-ctu-depth in {default,1,3,6,10}; non-trivial = at least one whole-program finding in mode A, distinct project.")
+        "--max-ctu-depth in {default,1,3,6,10}; in half of the projects 60% of the callers have their call site under #ifdef M / #else (no -D: the file is analysed under several configurations, "
+        "a helper may be called in one configuration only); non-trivial = at least one whole-program finding in mode A, distinct project.")
 
     vlib.ensure_repo_build()
 
@@ -142,6 +144,13 @@ def x1(run, model, vh, quick, rng):
                             nontrivial=lambda c, m, i: tuple(map(str, c)) if not is_u(m) and len(c) > 2 else None,
                             bucket=lambda c, m, i: "unmodelled" if is_u(m) else "fc%s,nc_in%s,nc_out%s" % (m[0].decode() if m else "?", nested_in(c), nested_out(m)))
     report(run, "CTU::FileInfo toString->loadFromXml", modelled(run, "CTU::FileInfo toString->loadFromXml", diffs), "ctu")
+
+    name = "AnalyzerInformation::setFileInfo per configuration -> processFilesTxt"
+    cases = [G.gen_ctucfgs_case(rng) for _ in range(600 if quick else 20000)]
+    diffs = vlib.correspond(run, name, model, [vh, "ctucfgs"], cases, tag="ctucfgs",
+                            nontrivial=lambda c, m, i: tuple(map(str, c)) if not is_u(m) and c[0] > 1 and len(m) > 2 else None,
+                            bucket=lambda c, m, i: "unmodelled" if is_u(m) else "cfgs%s,fc_out%s,nc_out%s" % (c[0], m[0].decode() if m else "?", nested_out(m)))
+    report(run, name, modelled(run, name, diffs), "ctucfgs")
 
     cases = [G.gen_uu_case(rng) for _ in range(n)]
     diffs = vlib.correspond(run, "UnsafeUsage toString->loadUnsafeUsageListFromXml", model, [vh, "uu"], cases, tag="uu",
@@ -241,7 +250,7 @@ def x1_wp(run, model, vh, quick, rng, namesok):
 def x2(run, quick, rng, namesok, ids_escaped):
     name = "real binary: -j1 / -j1+builddir (fresh, cached) / -j2+builddir"
     n = 40 if quick else 1200
-    projects = [G.WITNESS, G.WITNESS_QUOTE, G.WITNESS_NONASCII] + [G.gen_project(rng) for _ in range(n)]
+    projects = [G.WITNESS, G.WITNESS_QUOTE, G.WITNESS_NONASCII, G.WITNESS_MULTICFG] + [G.gen_project(rng) for _ in range(n)]
     seen = set()
     shown = 0
     unexplained = [0]
